@@ -516,7 +516,9 @@ Step(ev) ==
                     (IF optHere /\ ~(ev.rval = 0 /\ ev.result = 1)
                      THEN {V(ev, IF "props" \in DOMAIN B.opt THEN B.opt.props ELSE {"C12"}, "the basis returned with OPTIMAL is not confirmed by " \o c \o " (rval " \o ToString(ev.rval) \o ", result " \o ToString(ev.result) \o ")")} ELSE {})
                     \cup (IF optHere /\ c # "basis_optimalstatus" /\ ev.rval = 0 /\ ev.result = 1 /\ B.opt.val # "?"
-                             /\ ev.dobjval # (IF L.max THEN RNeg(B.opt.val) ELSE B.opt.val) /\ ~(pre /\ ev.dobjval = B.opt.val)
+                             /\ ev.dobjval # (IF L.max THEN RNeg(B.opt.val) ELSE B.opt.val)
+                             \* with the pre-step the float solve may end in another dual feasible basis: its dual objective is a valid bound, not necessarily the optimum
+                             /\ ~(pre /\ (ev.dobjval = B.opt.val \/ RLeq(ev.dobjval, IF L.max THEN RNeg(B.opt.val) ELSE B.opt.val)))
                      THEN {V(ev, {"C12"}, "dual bound of the optimal basis differs from the optimal value")} ELSE {})
                     \cup (IF solHere /\ ev.rval # 0
                      THEN {V(ev, {"C12"}, "verdict function failed on a non-singular basis")} ELSE {})
